@@ -868,7 +868,7 @@ impl<'a, 'b> Sem<'a, 'b> {
         let mut ns_arg = None;
         let mut suffix_mods = vec![];
         if self.c.chance(1, 3) {
-            ns_arg = Some(self.c.choose(&["arg", "a-b", "modelValue", "x"]).to_string());
+            ns_arg = Some(self.c.choose(&["arg", "a-b", "modelValue", "x", "Top", "Étage", "ARG"]).to_string());
             self.label("directive-ns-arg");
         }
         let k = self.c.weighted(&[6, 2, 1, 1]);
@@ -1012,13 +1012,13 @@ impl<'a, 'b> Sem<'a, 'b> {
         let arg_name: String;
         match arg_form {
             1 if !array_only => {
-                let a = self.c.choose(&["title", "foo", "checked"]).to_string();
+                let a = self.c.choose(&["title", "foo", "checked", "Title", "fooBar"]).to_string();
                 arg_name = a.clone();
                 ns_arg = Some(a);
                 self.label("vmodel-ns-arg");
             }
             2 | 1 => {
-                let a = self.c.choose(&["title", "foo", "checked"]).to_string();
+                let a = self.c.choose(&["title", "foo", "checked", "Title", "fooBar"]).to_string();
                 arg_name = a.clone();
                 arr_arg = Some(VmArg::Static(a));
                 self.label("vmodel-static-arg");
